@@ -327,7 +327,7 @@ class SymNumpy:
                 return realnp.array([a], dtype=object)
             if num == 2:
                 return realnp.array([a, b], dtype=object)
-            if num in (3, 4) and not isinstance(a, Jet) and not isinstance(b, Jet) and isinstance(a, SYM + (int, float)) and isinstance(b, SYM + (int, float)):
+            if getattr(self, "geomspace_roots", False) and num in (3, 4) and not isinstance(a, Jet) and not isinstance(b, Jet) and isinstance(a, SYM + (int, float)) and isinstance(b, SYM + (int, float)):
                 # a * (b/a)^(i/(num-1)) with an algebraic root atom: node_i^2 == node_(i-1) * node_(i+1) holds identically
                 a_, b_ = _lift(a), _lift(b)
                 ratio = b_ / a_
